@@ -24,7 +24,7 @@ theorem trans_of_cstep {own : Nat → Nat → Prop} {ini : Entry → Prop} {a b 
   | send i st st' h1 h2 h3 => exact ⟨i, st, st', _, _, trans_send I h1 h2 h3⟩
   | restart i st st' c rnd h1 _ h3 => exact ⟨i, st, st', _, _, trans_restart I h1 h3⟩
 
-theorem owner_uniq (H : Hyp2 cfg c0 h) : ∀ i j t, Owner h i t → Owner h j t → i = j :=
+theorem owner_uniq (H : Hyp2w cfg c0 h) : ∀ i j t, Owner h i t → Owner h j t → i = j :=
   owner_unique cfg H.ne H.nd1 H.nd2 h H.hist H.fix
 
 theorem step_node_back {s s' : Sys} (hs : Step s s') (i : Nat) (st' : NState)
@@ -63,7 +63,7 @@ theorem FloorAt.steps {s s' : Sys} {k τ : Nat} (hs : Steps s s') (hf : FloorAt 
 
 /-- **the term floor of the owner**: wherever an entry of term `τ` sits, the node that leads `τ`
 (somewhere in the history) has `τ` as a floor of its term, in memory and in the storage -/
-theorem entry_floor (H : Hyp2 cfg c0 h) :
+theorem entry_floor (H : Hyp2w cfg c0 h) :
     ∀ (n : Nat) (s : Sys), h[n]? = some s → ∀ loc g, At s loc g → ∀ i e, g.entryAt i = some e →
       ∀ k, Owner h k e.term → FloorAt s k e.term := by
   obtain ⟨s0, h0, hall⟩ := H.inv_at
